@@ -1037,7 +1037,7 @@ class ArgumentParser(ParserDeprecations, ActionsContainer, ArgumentLinking, argp
             if not default_config_file_content.strip():
                 continue
             with change_to_path_dir(default_config_file), parser_context(parent_parser=self):
-                cfg_file = self._load_config_parser_mode(default_config_file.get_content(), key=key)
+                cfg_file = self._load_config_parser_mode(default_config_file_content, key=key)
                 cfg = self.merge_config(cfg_file, cfg)
                 exit_on_error, self.exit_on_error = self.exit_on_error, False  # errors are re-raised below
                 try:
